@@ -139,8 +139,113 @@ def tree_tokens(t):
     return [t[0]] + tree_tokens(t[1]) + tree_tokens(t[2])
 
 
+def machine_run(cmds, stacks, max_steps):
+    """Reference interpreter (language definition) for programs that touch no I/O stack.
+    cmds: list of (type, h, d, tree); stacks: dict idx -> list of Fraction|None. Returns the replay driver's text."""
+    st = {k: list(v) for k, v in stacks.items()}
+    cur, loc, steps = 3, 0, 0
+    points, latest = {}, None
+
+    def pop(i):
+        s_ = st.setdefault(i, [])
+        return s_.pop() if s_ else None
+
+    def push(i, v):
+        s_ = st.setdefault(i, [])
+        if s_ or v is not None:
+            s_.append(v)
+
+    def add(a, b):
+        return None if a is None or b is None else a + b
+
+    def mul(a, b):
+        return None if a is None or b is None else a * b
+
+    while loc < len(cmds) and steps < max_steps:
+        ty, h, d, tree = cmds[loc]
+        c = cur
+        if ty == 0:
+            push(c, Fraction(h * d))
+        elif ty == 1 or ty == 2:
+            n = Fraction(0) if ty == 1 else Fraction(1)
+            for _ in range(h):
+                n = add(n, pop(c)) if ty == 1 else mul(n, pop(c))
+            push(d, n)
+        elif ty == 3 or ty == 4:
+            n = Fraction(0) if ty == 3 else Fraction(1)
+            vs = [pop(c) for _ in range(h)]
+            vs.reverse()
+            for x in vs:
+                if ty == 3:
+                    x = None if x is None else -x
+                    n = add(n, x)
+                else:
+                    x = None if (x is None or x == 0) else 1 / x
+                    n = mul(n, x)
+                push(c, x)
+            push(d, n)
+        else:
+            n = pop(c)
+            for _ in range(h):
+                push(d, n)
+            push(c, n)
+            cur = d
+        count = h * d
+        t = tree
+        while True:
+            if t[0] == "N":
+                at = 0
+                break
+            if t[0] == "H":
+                at = t[1]
+                break
+            v = pop(cur)
+            left = (v is not None and v < count) if t[0] == "Q" else (v is not None and v == count)
+            t = t[1] if left else t[2]
+        nxt = loc + 1
+        if at != 0:
+            if at != 13:
+                pid = (count << 4) + at
+                if pid in points:
+                    if loc != points[pid]:
+                        latest = loc
+                        nxt = points[pid]
+                else:
+                    points[pid] = loc
+            elif latest is not None:
+                nxt = latest
+        loc = nxt
+        steps += 1
+    out = "loc=%d cur=%d" % (loc, cur)
+    for i in sorted(st):
+        if st[i]:
+            out += " |%d=" % i + " ".join(show_num(v) for v in st[i])
+    return out
+
+
 def cases_for(op, seed):
     """yield (line, expected, pretty input)"""
+    if op == "exec.steps":
+        rnd = random.Random(seed + 7)
+        H2, H3, H13, N = ("H", 2), ("H", 3), ("H", 13), ("N",)
+        trees = [N, N, N, H2, H3, H13, ("Q", H2, N), ("E", H3, H2), ("Q", N, ("E", H2, N)), ("E", ("Q", H13, H3), N)]
+        vals = [Fraction(0), Fraction(1), Fraction(2), Fraction(-3), Fraction(1, 2), Fraction(-5, 3), Fraction(6), None]
+        for _ in range(400):
+            n = rnd.randint(1, 6)
+            cmds = []
+            for _ in range(n):
+                ty = rnd.randint(0, 5)
+                h = rnd.randint(1, 3)
+                d = rnd.randint(0, 4) if ty == 0 else rnd.randint(3, 5)
+                cmds.append((ty, h, d, rnd.choice(trees)))
+            stacks = {i: [rnd.choice(vals[:-1])] + [rnd.choice(vals) for _ in range(rnd.randint(0, 3))] for i in (3, 4, 5) if rnd.random() < 0.8}
+            exp = machine_run(cmds, stacks, 25)
+            prog = ";".join("%d,%d,%d,%s" % (ty, h, d, " ".join(tree_tokens(t))) for ty, h, d, t in cmds)
+            init = "|".join("%d=%s" % (i, " ".join(enc_num(v) for v in vs_)) for i, vs_ in stacks.items())
+            yield ("exec.steps\t%s\t%s\t25" % (prog, init), exp,
+                   {"op": "execute_one x<=25", "commands(type,syllables,dots,area)": prog,
+                    "initial stacks": {str(i): [show_num(v) for v in vs_] for i, vs_ in stacks.items()}})
+        return
     if op == "big.roundtrip" or op == "big.to_base":
         vals = [0, 1, -1, 9, 10, 35, 36, 71, -35, 1295, 2 ** 32 - 1, 2 ** 32, -(2 ** 32), 2 ** 64 + 35, -(2 ** 70) - 11,
                 36 ** 9 - 1, 35 * 36 ** 5]
@@ -291,6 +396,8 @@ OPS = {
     "num_partial_cmp": ["num.cmp"],
     "PartialOrd_for_Num::partial_cmp": ["num.cmp"], "PartialEq_for_Num::eq": ["num.eq"],
     "calc": ["area.calc"], "Area::new": ["area.calc"],
+    "execute_one": ["exec.steps"], "calc_on_state": ["exec.steps", "area.calc"], "push_stack_wrap": ["exec.steps"],
+    "pop_stack_wrap": ["exec.steps"], "State::push_stack": ["exec.steps"], "State::pop_stack": ["exec.steps"],
     "BigNum::to_string_base": ["big.to_base", "big.roundtrip"], "BigNum::from_string_base": ["big.from_base", "big.roundtrip"],
     "BigNum::from_string": ["big.from_base"], "Num::from_string": ["num.roundtrip"],
 }
@@ -302,7 +409,7 @@ PROP_OPS = {
             "num.is_nan", "num.eq"],
     "C07": ["num.cmp", "area.calc", "big.eq", "big.cmp"],
     "C09": ["big.roundtrip", "big.to_base", "big.from_base", "num.roundtrip"],
-    "C01": ["area.calc", "num.cmp"],
+    "C01": ["exec.steps", "area.calc", "num.cmp"],
 }
 
 
